@@ -1,8 +1,326 @@
-(* placeholder while the harness is brought up; replaced by the real statements *)
+(* C11 - Screen-width arithmetic is consistent for text in every encoding.
+   Only statements here; every proof is [exact <lemma>] into Proofs/*.v.
+
+   Model: Model/Width.v.  str = list of code points, bytes = list of bytes.  The width function
+   is a parameter [wcw] (= wcwidth.wcwidth); get_char_width is the TRANSLATED clamp
+   [get_char_width_gen wcw]; every theorem holds for every [wcw] with [wcw c <= 2], and the
+   dumped table of the installed wcwidth satisfies that ([width_table_bounded]).
+   decode_one's arithmetic, calc_trim_text and the DEC tables are regenerated from the source on
+   every run (Gen/str_util_gen.v), the width table from the installed package (Gen/wcwidth_table_gen.v).
+
+   [encs s] is the UTF-8 encoding of the code points s, [boff s k] the byte offset of character k
+   (Base/Utf8.v), [scalars s]: every code point is a Unicode scalar value (what str.encode accepts). *)
 From Coq Require Import ZArith List Bool.
 Import ListNotations.
-From Urwid Require Import PyBase PyList Utf8 Width.
+From Urwid Require Import PyBase PyList Utf8 wcwidth_table_gen str_util_gen Width
+     WidthFacts WidthProofs Utf8Proofs WideProofs RleProofs WidthTableProofs WidthTop.
 Open Scope Z_scope.
-Example model_runs : calc_width wcwidth_tab MStr [97; 19990; 769] 0 3 = Ok 3.
+
+(* ================= clause 1: widths are additive over character boundaries ================= *)
+Theorem calc_width_app :
+  forall wcw text a b c, 0 <= a <= b -> b <= c -> c <= zlen text ->
+  exists w1 w2, calc_width wcw MStr text a b = Ok w1 /\ calc_width wcw MStr text b c = Ok w2 /\
+                calc_width wcw MStr text a c = Ok (w1 + w2).
+Proof. exact calc_width_app_str. Qed.
+Print Assumptions calc_width_app.
+
+Theorem calc_width_bounds :
+  forall wcw, (forall c, wcw c <= 2) -> forall text a b w, 0 <= a <= b -> b <= zlen text ->
+  calc_width wcw MStr text a b = Ok w -> 0 <= w <= 2 * (b - a).
+Proof. exact calc_width_str_range. Qed.
+Print Assumptions calc_width_bounds.
+
+(* ================= clause 2: the offset found for a target column (str) =================
+   result (p, c): inside the range, c is the width of [start, p), not beyond the requested column,
+   and maximal: either the end was reached or the next character does not fit; every earlier
+   character fits (p is the FIRST position whose character does not fit). *)
+Theorem calc_text_pos_spec :
+  forall wcw text a b col, 0 <= a <= b -> b <= zlen text -> 0 <= col ->
+  exists p c, calc_text_pos wcw MStr text a b col = Ok (p, c) /\
+    a <= p <= b /\ calc_width wcw MStr text a p = Ok c /\ c <= col /\
+    (p = b \/ exists ch, nthz text p = Some ch /\ col < c + cw wcw ch) /\
+    (forall j, a <= j < p -> exists w, calc_width wcw MStr text a (j + 1) = Ok w /\ w <= col).
+Proof. exact top_calc_text_pos_spec. Qed.
+Print Assumptions calc_text_pos_spec.
+
+(* ================= clause 2 for UTF-8 bytes: the byte functions agree with the str functions
+   through the boundary map, so a result offset is always a character boundary ================= *)
+Theorem utf8_decode_one_roundtrip :
+  forall pre c post, 0 <= c < 1114112 ->
+  decode_one (pre ++ utf8_encode c ++ post) (zlen pre) = Ok (c, zlen pre + zlen (utf8_encode c)) /\
+  1 <= zlen (utf8_encode c) <= 4.
+Proof. exact top_utf8_roundtrip. Qed.
+Print Assumptions utf8_decode_one_roundtrip.
+
+Theorem bytes_agree_with_str :
+  forall wcw s a b col, scalars s -> 0 <= a <= b -> b <= zlen s ->
+  calc_width wcw MUtf8 (encs s) (boff s a) (boff s b) = calc_width wcw MStr s a b /\
+  exists p c, calc_text_pos wcw MStr s a b col = Ok (p, c) /\ a <= p <= b /\
+              calc_text_pos wcw MUtf8 (encs s) (boff s a) (boff s b) col = Ok (boff s p, c).
+Proof. exact top_bytes_agree. Qed.
+Print Assumptions bytes_agree_with_str.
+
+Theorem strict_decoder_accepts_encoded_text :
+  forall s, scalars s -> strict_decode (encs s) = Some s.
+Proof. exact top_strict_decoder. Qed.
+Print Assumptions strict_decoder_accepts_encoded_text.
+
+Theorem is_wide_char_agrees :
+  forall wcw s a ch, scalars s -> nthz s a = Some ch ->
+  is_wide_char wcw MStr s a = Ok (cw wcw ch =? 2) /\
+  is_wide_char wcw MUtf8 (encs s) (boff s a) = Ok (cw wcw ch =? 2).
+Proof. intros wcw s a ch Hs Hn. split; [exact (is_wide_char_str wcw s a ch Hn)|exact (top_is_wide_utf8 wcw s a ch Hs Hn)]. Qed.
+Print Assumptions is_wide_char_agrees.
+
+(* ================= clause 3: next character and back ================= *)
+Theorem move_next_prev_inverse_str :
+  forall text a b, a < b ->
+  exists n, move_next_char MStr text a b = Ok n /\ n = a + 1 /\ move_prev_char MStr text a n = Ok a.
+Proof. exact move_next_prev_str. Qed.
+Print Assumptions move_next_prev_inverse_str.
+
+Theorem move_next_prev_inverse_utf8 :
+  forall s a b, scalars s -> 0 <= a < b -> b <= zlen s ->
+  exists n, move_next_char MUtf8 (encs s) (boff s a) (boff s b) = Ok n /\ n = boff s (a + 1) /\
+            move_prev_char MUtf8 (encs s) (boff s a) n = Ok (boff s a).
+Proof. exact top_next_prev_utf8. Qed.
+Print Assumptions move_next_prev_inverse_utf8.
+
+Theorem move_prev_char_utf8_boundary :
+  forall s a b, scalars s -> 0 <= a < b -> b <= zlen s ->
+  move_prev_char MUtf8 (encs s) (boff s a) (boff s b) = Ok (boff s (b - 1)).
+Proof. exact top_prev_utf8. Qed.
+Print Assumptions move_prev_char_utf8_boundary.
+
+(* ================= double-byte mode, EVERY byte string (no well-formedness needed):
+   the offset found is never the second half of a double-byte character, is at most one
+   column short of the request, and when it is short the position is a first half ================= *)
+Theorem within_double_byte_never_2_at_result :
+  forall wcw text a b col, 0 <= a <= b -> b <= zlen text -> 0 <= col ->
+  exists p c, calc_text_pos wcw MWide text a b col = Ok (p, c) /\
+    a <= p <= b /\ c = p - a /\ c <= col /\
+    (p = b \/ col - 1 <= c) /\
+    (p < b -> exists r, within_double_byte text a p = Ok r /\ r <> 2) /\
+    (p < b -> c = col - 1 -> within_double_byte text a p = Ok 1).
+Proof. exact calc_text_pos_wide_spec. Qed.
+Print Assumptions within_double_byte_never_2_at_result.
+
+Theorem within_double_byte_second_half_follows_first_half :
+  forall text ls pos, 0 <= ls <= pos -> pos < zlen text -> within_double_byte text ls pos = Ok 2 ->
+  ls <= pos - 1 /\ within_double_byte text ls (pos - 1) = Ok 1.
+Proof. exact wdb_2_prev_1. Qed.
+Print Assumptions within_double_byte_second_half_follows_first_half.
+
+Theorem narrow_and_wide_widths_count_bytes :
+  forall wcw m text a b, (m = MWide \/ m = MNarrow) -> a <= b -> calc_width wcw m text a b = Ok (b - a).
+Proof. exact calc_width_bytes_count. Qed.
+Print Assumptions narrow_and_wide_widths_count_bytes.
+
+Theorem narrow_text_pos :
+  forall wcw text a b col, 0 <= a <= b -> 0 <= col ->
+  calc_text_pos wcw MNarrow text a b col = Ok (Z.min b (a + col), Z.min b (a + col) - a).
+Proof. exact calc_text_pos_narrow_spec. Qed.
+Print Assumptions narrow_text_pos.
+
+(* PARTIAL (double-byte): the theorems above hold for arbitrary bytes.  What is NOT proved: for a
+   well-formed double-byte text (single bytes < 0x80; pairs lead 0x81..0xFF, trail 0x40..0x7E or
+   0x80..0xFF) within_double_byte is exact (0 / 1 / 2 = single / first / second byte of its character)
+   and therefore move_next_char / move_prev_char are inverse on character boundaries.  Stated here,
+   decided by the correspondence and the oracle (euc-jp, big5, gbk, euc-kr texts). *)
+Inductive dbchar := DSingle (b : Z) | DDouble (lead trail : Z).
+Definition dbchar_ok (c : dbchar) : Prop :=
+  match c with
+  | DSingle b => 0 <= b < 128
+  | DDouble l t => 129 <= l <= 255 /\ (64 <= t <= 126 \/ 128 <= t <= 255)
+  end.
+Definition dbbytes (c : dbchar) : list Z := match c with DSingle b => [b] | DDouble l t => [l; t] end.
+Definition move_next_prev_inverse_wide_full : Prop :=
+  forall pre c post, Forall dbchar_ok (pre ++ c :: post) ->
+    let text := flat_map dbbytes (pre ++ c :: post) in
+    let a := zlen (flat_map dbbytes pre) in
+    exists n, move_next_char MWide text a (zlen text) = Ok n /\ n = a + zlen (dbbytes c) /\
+              move_prev_char MWide text 0 n = Ok a.
+
+(* ================= clause 4: trimming a line to a column range ================= *)
+Theorem calc_trim_text_spec :
+  forall wcw, (forall c, wcw c <= 2) ->
+  forall text a b sc ec wl,
+  0 <= a <= b -> b <= zlen text -> 0 <= sc < ec -> calc_width wcw MStr text a b = Ok wl -> ec <= wl ->
+  exists sp ep pl pr ws,
+    calc_trim_text wcw MStr text a b sc ec = Ok (sp, ep, pl, pr) /\
+    a <= sp <= ep /\ ep <= b /\ (pl = 0 \/ pl = 1) /\ (pr = 0 \/ pr = 1) /\
+    (* the total width is exactly the requested range *)
+    calc_width wcw MStr text sp ep = Ok ws /\ pl + ws + pr = ec - sc /\
+    (* the slice starts at the requested column (one later when padded) *)
+    calc_width wcw MStr text a sp = Ok (sc + pl) /\
+    (* each flag is set exactly when a character straddles that edge *)
+    (pl = 1 <-> exists k w0 w1, a <= k < b /\ calc_width wcw MStr text a k = Ok w0 /\
+                               calc_width wcw MStr text a (k + 1) = Ok w1 /\ w0 < sc < w1) /\
+    (pr = 1 <-> exists k w0 w1, a <= k < b /\ calc_width wcw MStr text a k = Ok w0 /\
+                               calc_width wcw MStr text a (k + 1) = Ok w1 /\ w0 < ec < w1).
+Proof. exact top_trim_str. Qed.
+Print Assumptions calc_trim_text_spec.
+
+(* the same function (translated calc_trim_text_gen) on UTF-8 bytes returns the image of the str
+   result under the boundary map, so the statement above transfers to the encoded text *)
+Theorem calc_trim_text_utf8_agrees_with_str :
+  forall wcw s a b sc ec, scalars s -> 0 <= a <= b -> b <= zlen s ->
+  exists sp ep pl pr,
+    calc_trim_text wcw MStr s a b sc ec = Ok (sp, ep, pl, pr) /\
+    calc_trim_text wcw MUtf8 (encs s) (boff s a) (boff s b) sc ec = Ok (boff s sp, boff s ep, pl, pr).
+Proof. exact top_trim_utf8. Qed.
+Print Assumptions calc_trim_text_utf8_agrees_with_str.
+
+(* the translated calc_trim_text meets the trimming specification for ANY position function that
+   satisfies the calc_text_pos specification relative to a monotone width function F *)
+Theorem calc_trim_text_generic_spec :
+  forall (T : Type) (ctp : T -> Z -> Z -> Z -> result (Z * Z)) (text : T) (a b : Z)
+         (F : Z -> Z) (valid : Z -> Prop) (nextb : Z -> Z),
+  F a = 0 -> valid a ->
+  (forall x y, valid x -> valid y -> x <= y -> F x <= F y) ->
+  (forall x, valid x -> x < b -> valid (nextb x) /\ x < nextb x /\ F x <= F (nextb x) <= F x + 2 /\
+                                   (forall y, valid y -> x < y -> nextb x <= y)) ->
+  (forall x col, valid x -> 0 <= col ->
+     exists p c, ctp text x b col = Ok (p, c) /\ valid p /\ x <= p /\ c = F p - F x /\ c <= col /\
+                 (p = b \/ (p < b /\ col < c + (F (nextb p) - F p)))) ->
+  forall start_col end_col, 0 <= start_col < end_col -> end_col <= F b -> valid b ->
+  exists spos pos pl pr,
+    calc_trim_text_gen T ctp text a b start_col end_col = Ok (spos, pos, pl, pr) /\
+    valid spos /\ valid pos /\ spos <= pos /\ (pl = 0 \/ pl = 1) /\ (pr = 0 \/ pr = 1) /\
+    F spos = start_col + pl /\ pl + (F pos - F spos) + pr = end_col - start_col /\
+    (pl = 1 <-> straddles b F valid nextb start_col) /\ (pr = 1 <-> straddles b F valid nextb end_col).
+Proof. exact calc_trim_text_generic. Qed.
+Print Assumptions calc_trim_text_generic_spec.
+
+(* NOT proved: the trimming specification for the double-byte mode on well-formed double-byte text
+   (needs the exactness of within_double_byte, see above) and the length law of trim_text_attr_cs
+   (text, attribute runs and charset runs of the result have the same length): correspondence and
+   oracle only. *)
+Definition trim_text_attr_cs_lengths_full : Prop :=
+  forall wcw m text attr cs sc ec t a c,
+    rle_len attr = zlen text -> rle_len cs = zlen text -> 0 <= sc < ec ->
+    trim_text_attr_cs wcw m text attr cs sc ec = Ok (t, a, c) ->
+    rle_len a = zlen t /\ rle_len c = zlen t.
+
+(* ================= run-length lists ================= *)
+Theorem rle_subseg_length :
+  forall (A : Type) (r : list (A * Z)) s e,
+  Forall (fun p => 0 <= snd p) r -> 0 <= s <= e -> e <= rle_len r -> rle_len (rle_subseg r s e) = e - s.
+Proof. exact @rle_subseg_len. Qed.
+Print Assumptions rle_subseg_length.
+
+Theorem rle_len_additive :
+  forall (A : Type) (r r2 : list (A * Z)), rle_len (r ++ r2) = rle_len r + rle_len r2.
+Proof. exact @top_rle_laws. Qed.
+Print Assumptions rle_len_additive.
+
+Theorem rle_modify_lengths :
+  forall (r r2 : rle) a n,
+  rle_len (rle_append_modify r a n) = rle_len r + n /\
+  rle_len (rle_prepend_modify r a n) = n + rle_len r /\
+  rle_len (rle_join_modify r r2) = rle_len r + rle_len r2.
+Proof. exact top_rle_modify. Qed.
+Print Assumptions rle_modify_lengths.
+
+(* NOT proved (correspondence + oracle only): rle_product covers min(len rle1, len rle2). *)
+Definition rle_product_len_full : Prop :=
+  forall x y p, Forall (fun q => 0 < snd q) x -> Forall (fun q => 0 < snd q) y ->
+    rle_product x y = Ok p -> rle_len p = Z.min (rle_len x) (rle_len y).
+
+(* ================= clause 5: encoding text for output =================
+   For EVERY codec [enc], flag and text (and for every byte string given directly): the charset run
+   lengths sum to the encoded length. *)
+Theorem target_encoding_run_lengths :
+  forall enc ud s,
+  rle_len (snd (apply_target_encoding enc ud s)) = zlen (fst (apply_target_encoding enc ud s)) /\
+  rle_len (snd (ate_bytes s)) = zlen (fst (ate_bytes s)).
+Proof. exact top_target_encoding_len. Qed.
+Print Assumptions target_encoding_run_lengths.
+
+(* each DEC line-drawing character of the (translated) table maps to its alternate byte under one
+   DEC_TAG ("0") run, for every codec that leaves ASCII alone *)
+Theorem target_encoding_dec :
+  forall enc, (forall c, 0 <= c < 128 -> enc c = [c]) ->
+  forall i d alt, nth_error dec_special_chars i = Some d -> nth_error alt_dec_special_chars i = Some alt ->
+  apply_target_encoding enc true [d] = ([alt], [(Some esc_DEC_TAG, 1)]).
+Proof. exact target_encoding_dec_char. Qed.
+Print Assumptions target_encoding_dec.
+
+(* PARTIAL: the statement for a DEC character inside an arbitrary string (each DEC character of s maps
+   to its alternate byte, all other characters to enc c, and the "0" runs mark exactly the DEC
+   positions) is stated and decided by the correspondence and the oracle only. *)
+Fixpoint expand_runs (r : rle) : list oz :=
+  match r with [] => [] | (a, n) :: t => repeat a (Z.to_nat n) ++ expand_runs t end.
+Definition target_encoding_dec_full : Prop :=
+  forall enc s,
+    (forall c, 0 <= c < 128 -> enc c = [c]) ->
+    (forall c b, In b (enc c) -> b <> esc_SO /\ b <> esc_SI) ->
+    ~ In esc_SO s -> ~ In esc_SI s ->
+    fst (apply_target_encoding enc true s)
+      = flat_map (fun c => match dec_alt c with Some a => [a] | None => enc c end) s /\
+    expand_runs (snd (apply_target_encoding enc true s))
+      = flat_map (fun c => match dec_alt c with
+                           | Some _ => [Some esc_DEC_TAG]
+                           | None => repeat None (length (enc c)) end) s.
+
+(* ================= the dumped width table meets the hypothesis of the theorems above ================= *)
+Theorem width_table_bounded : forall c, wcwidth_tab c <= 2.
+Proof. exact wcwidth_tab_le_2. Qed.
+Print Assumptions width_table_bounded.
+
+Theorem get_char_width_in_0_2 : forall wcw, (forall c, wcw c <= 2) -> forall c, 0 <= cw wcw c <= 2.
+Proof. exact cw_range. Qed.
+Print Assumptions get_char_width_in_0_2.
+
+(* instance: the trimming theorem for the installed table, no hypothesis left *)
+Theorem calc_trim_text_spec_installed_table :
+  forall text a b sc ec wl,
+  0 <= a <= b -> b <= zlen text -> 0 <= sc < ec -> calc_width wcwidth_tab MStr text a b = Ok wl -> ec <= wl ->
+  exists sp ep pl pr ws,
+    calc_trim_text wcwidth_tab MStr text a b sc ec = Ok (sp, ep, pl, pr) /\
+    a <= sp <= ep /\ ep <= b /\ (pl = 0 \/ pl = 1) /\ (pr = 0 \/ pr = 1) /\
+    calc_width wcwidth_tab MStr text sp ep = Ok ws /\ pl + ws + pr = ec - sc /\
+    calc_width wcwidth_tab MStr text a sp = Ok (sc + pl) /\
+    (pl = 1 <-> exists k w0 w1, a <= k < b /\ calc_width wcwidth_tab MStr text a k = Ok w0 /\
+                               calc_width wcwidth_tab MStr text a (k + 1) = Ok w1 /\ w0 < sc < w1) /\
+    (pr = 1 <-> exists k w0 w1, a <= k < b /\ calc_width wcwidth_tab MStr text a k = Ok w0 /\
+                               calc_width wcwidth_tab MStr text a (k + 1) = Ok w1 /\ w0 < ec < w1).
+Proof. exact (top_trim_str wcwidth_tab wcwidth_tab_le_2). Qed.
+Print Assumptions calc_trim_text_spec_installed_table.
+
+(* ================= non-vacuity: the hypotheses are met and the model computes ================= *)
+(* "a世́─" : a, wide CJK, combining acute, box drawing *)
+Example sample_text_scalars : scalars [97; 19990; 769; 9472].
+Proof. repeat constructor. Qed.
+
+Example sample_widths :
+  map (cw wcwidth_tab) [97; 19990; 769; 9472; 128512; 233; 10] = [1; 2; 0; 1; 2; 1; 0].
 Proof. vm_compute. reflexivity. Qed.
-Print Assumptions model_runs.
+
+Example sample_text_pos :
+  calc_text_pos wcwidth_tab MStr [97; 19990; 769; 9472] 0 4 2 = Ok (1, 1) /\
+  calc_text_pos wcwidth_tab MUtf8 (encs [97; 19990; 769; 9472]) 0 9 3 = Ok (6, 3) /\
+  boff [97; 19990; 769; 9472] 3 = 6.
+Proof. vm_compute. repeat split. Qed.
+
+Example sample_trim_straddles :
+  (* columns [2,4) of "a世́─": the wide character occupies columns 1-2, so the left edge cuts it *)
+  calc_trim_text wcwidth_tab MStr [97; 19990; 769; 9472] 0 4 2 4 = Ok (3, 4, 1, 0) /\
+  calc_trim_text wcwidth_tab MStr [97; 19990; 769; 9472] 0 4 0 2 = Ok (0, 1, 0, 1).
+Proof. vm_compute. split; reflexivity. Qed.
+
+Example sample_double_byte :
+  (* EUC-JP "あa" = A4 A2 61 *)
+  within_double_byte [164; 162; 97] 0 1 = Ok 2 /\
+  calc_text_pos wcwidth_tab MWide [164; 162; 97] 0 3 1 = Ok (0, 0) /\
+  move_next_char MWide [164; 162; 97] 0 3 = Ok 2.
+Proof. vm_compute. repeat split. Qed.
+
+Example sample_dec :
+  apply_target_encoding (fun c => [c]) true [120; 9472; 9474; 121]
+  = ([120; 113; 120; 121], [(None, 1); (Some 48, 2); (None, 1)]).
+Proof. vm_compute. reflexivity. Qed.
+
+Example sample_rle_subseg :
+  rle_subseg [(Some 1, 3); (None, 2); (Some 2, 4)] 2 7 = [(Some 1, 1); (None, 2); (Some 2, 2)].
+Proof. vm_compute. reflexivity. Qed.
